@@ -33,6 +33,7 @@ CATALOGUE = {
     "ceremony": [
         "R.type-get", "R.type-other", "R.chal-other", "R.chal-prefix", "R.chal-extended", "R.origin-other-host",
         "R.origin-case", "R.origin-trailing-slash", "R.origin-scheme", "R.rpid-other", "R.rpid-uppercase",
+        "R.rpid-hash-of-lowercase", "R.rpid-hash-of-idna-form", "R.cdj-undecodable-byte-in-origin", "R.cdj-undecodable-byte-in-type",
         "R.up-clear", "R.uv-clear", "R.at-clear", "R.at-clear-data-present", "R.credid-empty",
         "R.id-other-credential", "R.id-padded", "R.id-std-alphabet", "R.cred-type", "R.fmt-unknown",
         "R.fmt-nontext", "R.bs-without-be", "R.tb-not-supported"],
@@ -66,6 +67,10 @@ CATALOGUE = {
         "S.alg-es256", "S.sig-other-key", "S.payload-altered"],
     "chain": list(ca.CHAIN_FAULTS),
 }
+
+# faults that make the response malformed (client data that is not UTF-8 text): rejection is still demanded, but they are
+# not "well-formed responses rejected for a semantic reason"
+MALFORMED = {"R.cdj-undecodable-byte-in-origin", "R.cdj-undecodable-byte-in-type"}
 
 FORMATS = ["none", "packed", "packed-self", "fido-u2f", "tpm", "apple", "android-key", "android-safetynet"]
 FMT_STRING = {f: ("packed" if f == "packed-self" else f) for f in FORMATS}   # the text in attObj["fmt"]
@@ -243,7 +248,12 @@ def _client_data_json(b: _Build) -> bytes:
     kwargs = dict(b.req.cd_kwargs)
     if b.has("R.tb-not-supported"):
         kwargs["token_binding"] = {"status": "not-supported"}
-    return core.client_data(typ, _challenge(b), _origin(b), **kwargs)
+    cdj = core.client_data(typ, _challenge(b), _origin(b), **kwargs)
+    if b.has("R.cdj-undecodable-byte-in-origin"):
+        cdj = cdj.replace(b"https://", b"https://\xff", 1) if b"https://" in cdj else cdj + b"\xff"
+    if b.has("R.cdj-undecodable-byte-in-type"):
+        cdj = cdj.replace(b"webauthn.", b"webauthn.\xfe", 1) if b"webauthn." in cdj else cdj + b"\xfe"
+    return cdj
 
 
 def _std_alphabet_cred_id(cred_id: bytes) -> bytes:
@@ -280,6 +290,19 @@ def _rp_id_hash(b: _Build) -> bytes:
         rp_id = "other-rp.example"
     if b.has("R.rpid-uppercase"):
         rp_id = rp_id.upper()
+    # the hash of a *different string* that some would call "the same domain": only meaningful when it differs
+    if b.has("R.rpid-hash-of-lowercase"):
+        if rp_id.lower() == rp_id:
+            raise NotApplicable("needs an expected RP ID with upper-case letters")
+        rp_id = rp_id.lower()
+    if b.has("R.rpid-hash-of-idna-form"):
+        try:
+            alabel = rp_id.encode("idna").decode("ascii")
+        except UnicodeError:
+            raise NotApplicable("RP ID has no IDNA form")
+        if alabel == rp_id:
+            raise NotApplicable("needs a non-ASCII expected RP ID")
+        rp_id = alabel
     return sha256(rp_id.encode("utf-8"))
 
 
